@@ -482,7 +482,7 @@ PY_BUILTINS = {'itertools', 'reversed', 'len', 'int', 'bool', 'bytes', 'bytearra
                'list', 'tuple', 'set', 'super', 'all', 'any', 'ValueError', 'TypeError', 'NotImplementedError', 'Exception',
                'IndexError', 'KeyError', 'hashlib', 'math', 'binascii', 'os', 'str', 'getattr', 'setattr', 'chr', 'ord',
                'abs', 'enumerate', 'zip', 'sorted', 'next', 'hasattr', 'dict', 'divmod', 'object', 'OverflowError',
-               'AttributeError', 'StopIteration', 'delattr', 'NotImplemented', 'PGPError', 'RuntimeError', 'UnicodeDecodeError', 'AssertionError', 'ZeroDivisionError', 'callable', 'type', 'id', 'print'}
+               'AttributeError', 'StopIteration', 'delattr', 'repr', 'format', 'hash', 'filter', 'map', 'frozenset', 'bin', 'hex', 'NotImplemented', 'PGPError', 'RuntimeError', 'UnicodeDecodeError', 'AssertionError', 'ZeroDivisionError', 'callable', 'type', 'id', 'print'}
 
 BL = z3.Function('BL', z3.IntSort(), z3.IntSort())
 BE = z3.Function('BE', z3.IntSort(), z3.IntSort(), BYTES)
@@ -1103,6 +1103,18 @@ class Exec:
                 else:
                     i += 1
             return zsum(terms) if terms else z3.IntVal(0)
+        if T in (ast.BitOr, ast.BitXor) and (ca is not None or cb is not None):
+            m, x = (ca, b) if ca is not None else (cb, a)
+            if m >= 0 and self.entails(st, x >= 0):
+                # x | m = x + (bits of m that x lacks) ;  x ^ m = x + (bits of m that x lacks) - (bits of m that x has)
+                terms = [x]
+                i = 0
+                while (1 << i) <= m:
+                    if m & (1 << i):
+                        has = (x / (2 ** i)) % 2 == 1
+                        terms.append(z3.If(has, 0 if T is ast.BitOr else -(2 ** i), 2 ** i))
+                    i += 1
+                return zsum(terms)
         # both symbolic: need known width
         for w in (8, 16, 32):
             if self.entails(st, z3.And(a >= 0, a < 2 ** w, b >= 0, b < 2 ** w)):
@@ -1889,6 +1901,8 @@ class Exec:
                 if name == 'all':
                     return [(st, VBool(z3.And(*its) if its else z3.BoolVal(True)))]
                 return [(st, VBool(z3.Or(*its) if its else z3.BoolVal(False)))]
+            if name in ('repr', 'format', 'hex', 'bin'):
+                return [(st, VStr(s='<fmt>'))]
             if name == 'chr':
                 return [(st, VStr(z=z3.Unit(self.as_int(A[0]))))]
             if name == 'ord' and isinstance(A[0], VStr):
